@@ -38,13 +38,14 @@ type c08Step struct {
 type c08Case struct {
 	InitialRO bool      `json:"initial_ro"`
 	Steps     []c08Step `json:"steps"`
+	Conn      bool      `json:"conn,omitempty"` // requests travel over the record-marking connection loop
 }
 
 var c08Mutating = map[uint32]bool{nfsx.ProcSetattr: true, nfsx.ProcWrite: true, nfsx.ProcCreate: true, nfsx.ProcMkdir: true, nfsx.ProcSymlink: true,
 	nfsx.ProcMknod: true, nfsx.ProcRemove: true, nfsx.ProcRmdir: true, nfsx.ProcRename: true, nfsx.ProcLink: true, nfsx.ProcCommit: true}
 
 func genC08(t *rapid.T) c08Case {
-	c := c08Case{InitialRO: rapid.Bool().Draw(t, "initial_ro")}
+	c := c08Case{InitialRO: rapid.Bool().Draw(t, "initial_ro"), Conn: rapid.IntRange(0, 3).Draw(t, "conn") == 0}
 	n := rapid.IntRange(3, 30).Draw(t, "n")
 	for i := 0; i < n; i++ {
 		st := c08Step{Kind: "req"}
@@ -144,6 +145,7 @@ func runC08(tb stat.TB, c c08Case) {
 	s := newSession(tb, v, absnfs.ExportOptions{ReadOnly: c.InitialRO, AttrCacheTimeout: 1, AttrCacheSize: 4})
 	defer s.close()
 	s.tolerateMalformed = true
+	s.e.ViaConn = c.Conn
 	ro := c.InitialRO
 	nt := false
 	rwOK := 0
@@ -208,7 +210,14 @@ func runC08(tb stat.TB, c c08Case) {
 					stat.Discard(false)
 					panic(abandon{"timeout"})
 				}
-				tb.Fatalf("harness: %v", err)
+				if err == drv.ErrConnClosed {
+					// over a connection the server may end the connection instead of answering (undecodable call);
+					// the backend oracle below is judged all the same
+					stat.Label("connection_closed_instead_of_reply", 1)
+					wire = nil
+				} else {
+					tb.Fatalf("harness: %v", err)
+				}
 			}
 			// status word of the NFS result, if the RPC layer accepted the call
 			status, accepted := uint32(0xFFFFFFFF), false
@@ -269,6 +278,9 @@ func runC08(tb stat.TB, c c08Case) {
 	}
 	if c.InitialRO {
 		ls = append(ls, "read_only_from_construction")
+	}
+	if c.Conn {
+		ls = append(ls, "over_connection_loop")
 	}
 	stat.Case(c, nt, ls...)
 }
